@@ -333,8 +333,8 @@ LIB_SIGNATURES = {"pandas.Series": ["data", "index", "dtype", "name"], "pandas.D
 
 
 class Duality:
-    def __init__(self, repo, module, cls=None):
-        self.repo, self.module, self.cls = repo, module, cls
+    def __init__(self, repo, module, cls=None, data=None):
+        self.repo, self.module, self.cls, self.data = repo, module, cls, data
         self.problems = []
         self.pairs = []
 
@@ -366,12 +366,20 @@ class Duality:
                 self.cmp(a.right, b.right, where)
                 return
             self.pairs.append((where, "operator", oa, ob, (oa, ob) in OP_PAIRS))
+            # z - s is undone by z + s, but s - z is its own inverse (s - (s - z) = z): the data must be the left operand of - and /
+            if (oa, ob) in OP_PAIRS and self.data is not None:
+                def has_data(e_):  # the operand *is* the (validated) input series
+                    return isinstance(e_, ast.Name) and e_.id == self.data
+                if has_data(a.right) and not has_data(a.left):
+                    self.problems.append("transform computes `%s` (the data is the right operand of %s); that operation is its own inverse and is "
+                                         "not undone by `%s`" % (ast.unparse(a)[:70], "-" if oa == "Sub" else "/", ast.unparse(b)[:70]))
+                    return
             orders = [((a.left, b.left), (a.right, b.right))]
             if isinstance(b.op, (ast.Add, ast.Mult)):
                 orders.append(((a.left, b.right), (a.right, b.left)))
             best = None
             for order in orders:
-                trial = Duality(self.repo, self.module, self.cls)
+                trial = Duality(self.repo, self.module, self.cls, self.data)
                 for x, y in order:
                     trial.cmp(x, y, where)
                 if not trial.problems and not trial.pairs:
@@ -503,7 +511,7 @@ def check_duality(ctx, repo):
                       "both run %s" % (effects_key(nt.effects) or "no guard statements"),
                       "guard / validation statements differ: transform runs %s, inverse_transform runs %s"
                       % (effects_key(nt.effects), effects_key(ni.effects)), loc)
-            d = Duality(repo, hi[0].module, c)
+            d = Duality(repo, hi[0].module, c, pt[0] if pt else None)
             d.cmp(t, i)
             witness = {"transform": ast.unparse(t), "inverse_transform": ast.unparse(i)}
             if d.problems:
@@ -708,9 +716,11 @@ def phase_reference(repo):
             elif isinstance(n, ast.BinOp) and isinstance(n.op, ast.Sub):
                 groups.append([n.left, n.right])
             for g_ in groups:
-                has_y = any(astq.canon(a) == "%s.index[0]" % y for a in g_)
-                refs = [a.value.attr for a in g_ if isinstance(a, ast.Subscript) and astq.const_value(a.slice) == 0
-                        and astq.is_self_attr(a.value, "self")]
+                def _k(x_):
+                    return isinstance(x_, ast.Subscript) and (isinstance(astq.const_value(x_.slice), int) or (
+                        isinstance(x_.slice, ast.UnaryOp) and isinstance(x_.slice.operand, ast.Constant)))
+                has_y = any(_k(a) and astq.canon(a.value) == "%s.index" % y for a in g_)
+                refs = [a.value.attr for a in g_ if _k(a) and astq.is_self_attr(a.value, "self")]
                 if has_y:
                     cands |= set(refs)
     if len(cands) != 1:
@@ -989,9 +999,53 @@ def check_alignment(ctx, repo):
             return Lin.sym("first(y)")
         if c == "self.%s[0]" % REF:
             return Lin.sym("first(train)")
+        # k-th time point of an equally spaced index: first + k (in units of the index frequency)
+        sl_ = e.slice if isinstance(e, ast.Subscript) else None
+        if isinstance(sl_, ast.UnaryOp) and isinstance(sl_.op, ast.USub) and isinstance(astq.const_value(sl_.operand), int):
+            sl_ = ast.Constant(value=-sl_.operand.value)
+        if sl_ is not None and isinstance(astq.const_value(sl_), int) and not isinstance(astq.const_value(sl_), bool):
+            k_ = astq.const_value(sl_)
+            base_ = astq.canon(e.value)
+            if base_ in ("%s.index" % y, "self.%s" % REF):
+                who = "y" if base_.endswith(".index") and not base_.startswith("self.") else "train"
+                return (Lin.sym("first(%s)" % who) + k_) if k_ >= 0 else (Lin.sym("last(%s)" % who) + (k_ + 1))
+        if isinstance(e, ast.UnaryOp) and isinstance(e.op, ast.USub) and isinstance(e.operand, ast.Constant):
+            raise Undecided("negative constant")
         if isinstance(e, ast.Attribute) and astq.is_self_attr(e, "self"):
             return Lin.sym("self." + e.attr)
         raise Undecided("`%s` is not a time point of y or of the training index" % ast.unparse(e)[:60])
+
+    def concrete(e, d_, sp_):
+        """value of the shift expression for first(y) - first(train) = d_, period sp_ (integers; no repo code is executed)"""
+        if isinstance(e, ast.Constant) and isinstance(e.value, int):
+            return e.value
+        if isinstance(e, ast.UnaryOp) and isinstance(e.op, (ast.USub, ast.UAdd)):
+            v_ = concrete(e.operand, d_, sp_)
+            return -v_ if isinstance(e.op, ast.USub) else v_
+        if isinstance(e, ast.BinOp) and type(e.op) in (ast.Add, ast.Sub, ast.Mult, ast.FloorDiv, ast.Mod):
+            a_, b_ = concrete(e.left, d_, sp_), concrete(e.right, d_, sp_)
+            if isinstance(e.op, (ast.FloorDiv, ast.Mod)) and b_ == 0:
+                raise Undecided("division by zero")
+            return {ast.Add: a_ + b_, ast.Sub: a_ - b_, ast.Mult: a_ * b_, ast.FloorDiv: a_ // b_ if b_ else 0, ast.Mod: a_ % b_ if b_ else 0}[type(e.op)]
+        if astq.canon(e) == "self.sp":
+            return sp_
+        if isinstance(e, ast.Call):
+            if isinstance(e.func, ast.Name) and e.func.id in ("int", "abs") and len(e.args) == 1:
+                v_ = concrete(e.args[0], d_, sp_)
+                return abs(v_) if e.func.id == "abs" else v_
+            sym = repo.resolve_expr(mod, e.func)
+            if sym is not None and sym.kind == "func" and sym.dotted == "sktime.utils.datetime._get_duration":
+                b = astq.bind_call(sym.target, e)
+                if b and "x" in b and "y" in b:
+                    def pt(z):
+                        l_ = point(z)
+                        return l_.const + sum(c_ * {"first(y)": d_, "first(train)": 0}[n_] for n_, c_ in l_.terms.items())
+                    try:
+                        sign = duration_semantics(repo, sym.target)
+                        return sign * (pt(b["x"]) - pt(b["y"]))
+                    except AbsOfSigned:
+                        return abs(pt(b["x"]) - pt(b["y"]))
+        raise Undecided("`%s` has no integer interpretation" % ast.unparse(e)[:50])
 
     try:
         s = ev(shift)
@@ -1003,10 +1057,31 @@ def check_alignment(ctx, repo):
                       "(equal only if sp divides 2)" % (tag, e.lin), loc, witness={"offset": repr(e.lin), "d": -1, "shift": "sp - 1", "required": 1})
         return
     except Undecided as e:
-        ctx.undecided("R4", tag + ":shift", "shift `%s` not interpretable: %s" % (ast.unparse(shift)[:80], e), loc)
+        # not an affine congruence (e.g. floor division): look for a concrete counterexample over small offsets and periods
+        cex = None
+        try:
+            for sp_ in (4, 3, 5, 2, 7):
+                for d_ in (2, 1, 3, -1, -2, 5, 0, 7):
+                    got = concrete(shift, d_, sp_)
+                    if got % sp_ != (-d_) % sp_:
+                        cex = (d_, sp_, got)
+                        break
+                if cex:
+                    break
+        except (Undecided, KeyError, AttributeError):
+            cex = None
+        if cex:
+            d_, sp_, got = cex
+            ctx.violation("R4", tag + ":shift", "shift `%s` is not congruent to -(first(y) - first(train)) modulo sp: for d = %d, sp = %d it is %d "
+                          "(= %d mod sp) but must be %d, so position i reads seasonal_[(i - %d) mod %d] instead of seasonal_[(i + %d) mod %d]"
+                          % (ast.unparse(shift)[:80], d_, sp_, got, got % sp_, (-d_) % sp_, got, sp_, d_, sp_), loc,
+                          witness={"d": d_, "sp": sp_, "shift": got, "required": (-d_) % sp_})
+        else:
+            ctx.undecided("R4", tag + ":shift", "shift `%s` not interpretable: %s" % (ast.unparse(shift)[:80], e), loc)
         return
     want = -(Lin.sym("first(y)") - Lin.sym("first(train)"))
-    ctx.check(s.mod == "self.sp", "R4", tag + ":modulus", "shift is reduced modulo self.sp",
+    # np.roll reduces any integer shift modulo len(seasonal_) = sp itself: no reduction, or reduction modulo sp, are both fine
+    ctx.check(s.mod in (None, "self.sp"), "R4", tag + ":modulus", "shift is reduced modulo self.sp (or left to np.roll)",
               "shift is reduced modulo `%s`, not modulo the period self.sp (np.roll by a multiple of len(seasonal_) only coincides by luck)"
               % s.mod, loc)
     ctx.check(s.lin == want, "R4", tag + ":shift",
@@ -1475,6 +1550,48 @@ def override_gaps(repo, cls, override):
     return miss_opt, sorted(stores - got)
 
 
+def check_update_forwarding(ctx, repo):
+    """R1 (history clause "with and without intervening update calls"): Detrender.update keeps the trend model in step with the data by
+    forwarding (validated Z, X, update_params) to forecaster_.update in the roles (y, X, update_params) on every path."""
+    cls = repo.cls(DET + ":Detrender")
+    hit = repo.lookup_method(cls, "update")
+    if hit is None:
+        return
+    k, fn = hit
+    loc = ctx.loc(k.module, fn)
+    ps = astq.param_names(fn, True)
+    base = repo.cls("sktime.forecasting.base._base:BaseForecaster") if "sktime.forecasting.base._base:BaseForecaster" in repo.classes else None
+    sig = repo.lookup_method(base, "update")[1] if base is not None and repo.lookup_method(base, "update") else None
+    calls = [c_ for c_ in astq.calls(fn) if isinstance(c_.func, ast.Attribute) and c_.func.attr == "update"
+             and astq.is_self_attr(c_.func.value, "self", "forecaster_")]
+    g = CFG(fn)
+    must = bool(calls) and g.must_pass(lambda n_: any(x in calls for x in n_.calls()))
+    ctx.check(must, "R1", "Detrender.update:forwards", "forecaster_.update is called on every path",
+              "Detrender.update does not call self.forecaster_.update on every path: the trend model falls behind the data it is later asked to "
+              "detrend", loc)
+    if not calls or sig is None:
+        if calls and sig is None:
+            ctx.undecided("R1", "Detrender.update:roles", "signature of BaseForecaster.update not found", loc)
+        return
+    for call in calls:
+        b = astq.bind_call(sig, call, skip_self=True)
+        if b is None:
+            ctx.undecided("R1", "Detrender.update:roles", "arguments of forecaster_.update not bound", ctx.loc(k.module, call))
+            continue
+        found = []
+        vals = {p_: strip_validators(repo, k.module, astq.inline_locals(fn, e_), found) for p_, e_ in b.items() if isinstance(e_, ast.AST)}
+        names = astq.param_names(sig, True)
+        want = {names[0]: ps[0]}
+        for extra in ps[1:]:
+            if extra in names:
+                want[extra] = extra
+        bad = ["%s=%s" % (p_, ast.unparse(vals[p_]) if p_ in vals else "<missing>") for p_, w_ in want.items()
+               if not (p_ in vals and isinstance(vals[p_], ast.Name) and vals[p_].id == w_)]
+        ctx.check(not bad, "R1", "Detrender.update:roles", "forecaster_.update receives %s" % ", ".join("%s=%s" % kv for kv in sorted(want.items())),
+                  "Detrender.update hands its arguments to forecaster_.update in the wrong roles: %s (expected %s)"
+                  % (", ".join(bad), ", ".join("%s=%s" % kv for kv in sorted(want.items()))), ctx.loc(k.module, call))
+
+
 def check_horizon_contract(ctx, repo):
     """R1 (dependency): Detrender.transform / inverse_transform evaluate the trend at ForecastingHorizon(z.index, is_relative=False); the
     forecasters turn it into positions with to_absolute / to_relative / to_absolute_int and the in-/out-of-sample masks.  Those conversions
@@ -1524,6 +1641,7 @@ def run(ctx):
     ctx.assume("pd.Series.__getitem__ with an integer array on an integer index selects by label (pandas 1.x semantics pinned by the repo)")
     check_duality(ctx, repo)
     check_horizon_contract(ctx, repo)
+    check_update_forwarding(ctx, repo)
     check_index(ctx, repo)
     check_phase(ctx, repo)
     check_alignment(ctx, repo)
